@@ -2,7 +2,7 @@
 //vp:pkg ./tsdb/wlog
 //vp:roots ./util/compression io
 //vp:budget steps=40000000 alloc=400000
-//vp:bounds WL.Log / log / flushPage (writer) followed by wlog.Reader (reader) over an in-memory segment file: a first record of concrete zero bytes sized so that rem in {0,3,6,7,8,9,12,20} bytes remain in the 32 KiB page, then a second record of n in {0,1,5,13} arbitrary bytes (so it fits, exactly fits, or is split First/Last across the page boundary), optionally a third 2-byte record; a third harness tails the same kind of log with the real LiveReader while the file is cut at every byte offset 0..48 of the tail first (partial flush) and complete afterwards; a second harness writes a record of concrete zero bytes spanning 1..2 further full pages whose end lies exactly at, one byte before or one byte after a page end, followed by an arbitrary 2-byte record; checksums are an uninterpreted function (identical terms on both sides)
+//vp:bounds WL.Log / log / flushPage (writer) followed by wlog.Reader (reader) over an in-memory segment file: a first record of concrete zero bytes sized so that rem in {0,3,6,7,8,9,12,20} bytes remain in the 32 KiB page, then a second record of n in {0,1,5,13} arbitrary bytes (so it fits, exactly fits, or is split First/Last across the page boundary), optionally a third 2-byte record; a third harness tails the same kind of log with the real LiveReader while the file is cut at every byte offset 0..48 of the tail first (partial flush) and complete afterwards; a second harness writes a record of concrete zero bytes spanning 1..2 further full pages whose end lies exactly at, one byte before or one byte after a page end, followed by an arbitrary 2-byte record; checksums are an uninterpreted function (identical terms on both sides); the thorough tier widens the sets of page remainders, record sizes and cut offsets (see the harness)
 //vp:assume single segment (segment size 4 pages: nextSegment is never needed), no compression, writes to the segment file succeed
 package wlog
 
@@ -34,8 +34,12 @@ func (f *vpXMemFile) Close() error             { return nil }
 // Records of any length, including zero-length records and records crossing a page boundary, are
 // read back exactly as written, in order; after Log returns nil every byte has been handed to the file.
 func vpH_C13_wal_page_boundary() {
-	rem := []int{0, 3, 6, 7, 8, 9, 12, 20}[vpShape("rem", 0, 7)]
-	n := []int{0, 1, 5, 13}[vpShape("n", 0, 3)]
+	rems, ns := []int{0, 3, 6, 7, 8, 9, 12, 20}, []int{0, 1, 5, 13}
+	if vpThorough() {
+		rems, ns = []int{0, 1, 2, 3, 4, 5, 6, 7, 8, 9, 10, 11, 12, 14, 20, 33}, []int{0, 1, 2, 3, 5, 6, 7, 8, 13, 14, 26}
+	}
+	rem := rems[vpShape("rem", 0, len(rems)-1)]
+	n := ns[vpShape("n", 0, len(ns)-1)]
 	third := vpShape("third", 0, 1) == 1
 	file := &vpXMemFile{}
 	w := &WL{segmentSize: 4 * pageSize, page: &page{}, segment: &Segment{SegmentFile: file}, compress: compression.None}
@@ -129,8 +133,12 @@ func (r *vpXGrowReader) Read(p []byte) (int, error) {
 // tail), then the rest: it returns the same records, in order, none skipped or duplicated, and never
 // reports corruption for a record that is merely incomplete.
 func vpH_C13_live_reader_partial_flush() {
-	rem := []int{0, 7, 8, 20}[vpShape("rem", 0, 3)]
-	n := []int{1, 13}[vpShape("n", 0, 1)]
+	rems, ns, cutHi := []int{0, 7, 8, 20}, []int{1, 13}, 48
+	if vpThorough() {
+		rems, ns, cutHi = []int{0, 3, 6, 7, 8, 9, 12, 20}, []int{0, 1, 5, 13}, 64
+	}
+	rem := rems[vpShape("rem", 0, len(rems)-1)]
+	n := ns[vpShape("n", 0, len(ns)-1)]
 	file := &vpXMemFile{}
 	w := &WL{segmentSize: 4 * pageSize, page: &page{}, segment: &Segment{SegmentFile: file}, compress: compression.None}
 	w.metrics = newWLMetrics(w, nil)
@@ -144,7 +152,7 @@ func vpH_C13_live_reader_partial_flush() {
 	base := len(file.data)
 	vpAssert(w.Log(rec1, rec2) == nil, "Log succeeds")
 	tail := len(file.data) - base
-	cut := base + vpShape("cut", 0, 48)
+	cut := base + vpShape("cut", 0, cutHi)
 	if cut > len(file.data) {
 		cut = len(file.data)
 	}
